@@ -544,7 +544,31 @@ def c17_12(ctx):
     return out
 
 
+def c17_14(ctx):
+    """MEMO: no method of the modules this property is anchored in answers from a value remembered from an earlier argument or an
+    earlier state of the object (confirmed caches of the reference tree: sa/memo.py CONFIRMED_CACHES)"""
+    from sa.memo import cache_obligation
+    return cache_obligation(ctx, ["helper", "merkleblock", "block", "network"], "a root, target or verdict computed for one header or proof would be returned for another")
+
+
+def c17_15(ctx):
+    """SET-ORDER: no ordered result (list, serialisation, yielded sequence) of the modules this property is anchored in takes its
+    order from the iteration order of a set"""
+    from sa.setorder import setorder_obligation
+    return setorder_obligation(ctx, ["helper", "merkleblock", "block", "network"], "the same inputs give different output from run to run")
+
+
+def c17_16(ctx):
+    """SHARED necessary conditions over the modules this property is anchored in: FALSY-DEFAULT, MUTABLE-DEFAULT, IDENTITY, ALIAS,
+    CTOR-FORWARD (sa/shared.py)"""
+    from sa.shared import shared_obligations
+    return shared_obligations(ctx, ["helper", "merkleblock", "block", "network"], "the result would depend on something other than the arguments and the object's current state")
+
+
 OBLIGATIONS = [
+    ("C17.16", "SHARED", c17_16),
+    ("C17.15", "SET-ORDER", c17_15),
+    ("C17.14", "MEMO", c17_14),
     ("C17.1", "GUARD", c17_1),
     ("C17.2", "EXACT", c17_2),
     ("C17.3", "GUARD", c17_3),
